@@ -17,7 +17,8 @@ Record cli_in := mkin {
   ci_open_out_ok : bool;      (* os.OpenFile of the destination succeeds (irrelevant for stdout) *)
   ci_read_ok : bool;          (* io.ReadAll *)
   ci_parse_ok : bool;         (* the front end accepts the text *)
-  ci_compile : compile_outcome
+  ci_compile : compile_outcome;
+  ci_write_ok : bool          (* writing the formatted parser to the opened destination succeeds *)
 }.
 
 Record cli_out := mkout {
@@ -49,10 +50,11 @@ Definition cli_model (i : cli_in) : cli_out :=
   else if negb (ci_read_ok i) then on_error i
   else if negb (ci_parse_ok i) then on_error i
   else match ci_compile i with
-       | CompOk => mkout true false (Some (destination i))
+       | CompOk => if ci_write_ok i then mkout true false (Some (destination i)) else on_error i
        | CompWarn =>
            (* Strict: Compile returns the warnings as an error before writing; otherwise it prints them and writes *)
-           if ci_strict i then on_error i else mkout true true (Some (destination i))
+           if ci_strict i then on_error i
+           else if ci_write_ok i then mkout true true (Some (destination i)) else on_error i
        | CompTemplateErr => on_error i
        | CompInvalidGo => on_error i      (* the unformatted buffer is written, and the error returned *)
        end.
@@ -62,11 +64,11 @@ Definition failing (i : cli_in) : bool :=
   (match ci_src i with SrcFile => negb (ci_open_in_ok i) | SrcStdin => false end)
   || (match destination i with DestStdout => false | _ => negb (ci_open_out_ok i) end)
   || negb (ci_read_ok i) || negb (ci_parse_ok i)
-  || (match ci_compile i with CompTemplateErr | CompInvalidGo => true | _ => false end).
+  || (match ci_compile i with CompTemplateErr | CompInvalidGo => true | _ => negb (ci_write_ok i) end).
 
 Definition all_inputs : list cli_in :=
   flat_map (fun st => flat_map (fun sr => flat_map (fun ou => flat_map (fun a => flat_map (fun b => flat_map (fun c => flat_map (fun d =>
-    map (fun e => mkin st sr ou a b c d e) [CompOk; CompWarn; CompTemplateErr; CompInvalidGo])
+    flat_map (fun e => map (fun w => mkin st sr ou a b c d e w) [true; false]) [CompOk; CompWarn; CompTemplateErr; CompInvalidGo])
     [true; false]) [true; false]) [true; false]) [true; false]) [OutUnset; OutNamed; OutDash]) [SrcFile; SrcStdin]) [true; false].
 
 Definition dest_eqb (a b : dest) : bool :=
